@@ -17,10 +17,37 @@ inductive StreamOp where
   | flush              -- `self._stream.flush()` (unconditional; raises on a stream without flush)
   deriving DecidableEq, Repr
 
+/-- statements of `StreamSink.stop` -/
+inductive StreamStopOp where
+  | stopIfStoppable    -- `if self._stoppable: self._stream.stop()`
+  | stop               -- `self._stream.stop()` (unconditional; raises on a stream without stop)
+  deriving DecidableEq, Repr
+
+/-- what the tail of `Handler.emit` (inside its lock) does with the formatted message -/
+inductive EmitAct where
+  | queuePut           -- `self._queue.put(str_record)`
+  | sinkWrite          -- `self._sink.write(str_record)`
+  deriving DecidableEq, Repr
+
+/-- statements of the tail of `Handler.emit` inside `with self._protected_lock()` -/
+inductive EmitOp where
+  | returnIfStopped                       -- `if self._stopped: return`
+  | ifEnqueue (yes no : List EmitAct)     -- `if self._enqueue: … else: …`
+  | act (a : EmitAct)                     -- unconditional
+  deriving DecidableEq, Repr
+
 /-- statements of `FileSink._close_file` (the attribute resets are not represented) -/
 inductive CloseOp where
   | flush              -- `self._file.flush()`
   | close              -- `self._file.close()`
+  deriving DecidableEq, Repr
+
+/-- top-level steps of `FileSink._terminate_file(is_rotating)` -/
+inductive TermOp where
+  | closeIfOpen        -- `if self._file is not None: self._close_file()`
+  | renameIfRotating   -- `if is_rotating: …; if new_path == old_path: … os.rename(old_path, renamed_path)`
+  | endOfLife          -- `if is_rotating or self._rotation_function is None:` compression, retention
+  | createIfRotating   -- `if is_rotating: self._create_file(new_path); …`
   deriving DecidableEq, Repr
 
 /-- statements of `FileSink.write` -/
@@ -44,7 +71,9 @@ inductive StopOp where
 
 /-- statements of the `while True:` loop of `Handler._queued_writer` -/
 inductive WorkerOp where
-  | get                -- `message = queue.get()`
+  | get                -- `try: message = queue.get()  except Exception: <report>; continue`
+  | getBreakOnError    -- … but some handler of that `try` ends the loop (`break` / `return` / re-raise), or an
+                       --   `Exception` class escapes it: an item that cannot be un-pickled may END the worker
   | breakIfNone        -- `if message is None: break`
   | breakIfFalsy       -- `if not message: break`  (true of `None` AND of a message whose text is empty)
   | confirmIfTrue      -- `if message is True: self._confirmation_event.set(); continue`
